@@ -18,6 +18,7 @@ func init() {
 			c.run("C08-R4", "PAIR: compression probing restores the read offset", c08R4)
 			c.run("C08-R5", "GUARD-DOM/MUST-PASS: shape of the hash pipeline on both ends", c08R5)
 			c.run("C08-S1", "shared with C07-R2: with overwrite the destination path is built from the peer's own (validated) name, never from a constant", c07R2)
+			c.run("C08-S2", "shared with C02-3: what the receiver counts as saved has been handed to the destination file itself", c02SavedSize)
 		})
 }
 
